@@ -342,6 +342,26 @@ func (x *Exec) regionRecord(st *State, region string) string {
 	return s
 }
 
+// allocFrame is called before a fresh object of comp is initialised; the
+// returned function, called afterwards, states the ;@allocfact of comp.
+func (x *Exec) allocFrame(st *State, comp string) func() {
+	af, ok := x.eng.allocFacts[comp]
+	if !ok || x.errflow {
+		return func() {}
+	}
+	if _, ok := x.eng.regions[af[1]]; !ok {
+		return func() {}
+	}
+	pre := x.regionRecord(st, af[1])
+	na := st.na
+	return func() {
+		post := x.regionRecord(st, af[1])
+		if post != pre {
+			x.assume("", "("+af[0]+" "+pre+" "+post+" "+na+")")
+		}
+	}
+}
+
 // ---------------------------------------------------------------- helpers
 
 func and(parts ...string) string {
